@@ -3,6 +3,8 @@
 PROPERTIES = {
     "C16": dict(
         modules=["regions"],
+        # the volume/volume overlap test (written for C04) decides `A.intersects(B)` for mesh volumes
+        borrow=dict(modules=["solids"], match=["MeshVolumeRegion.intersects"]),
         level="proof",
         claim=(
             "every region denotes a point set mem3(R, p) over R^3 (planar regions at their height z); "
